@@ -125,7 +125,13 @@ def chain(x, cycles, key):
     vs = []
     try:
         o = C.load_bytes(x)
-    except Exception:
+    except Exception as e:
+        from rv.errors import ControllerValueError
+
+        if isinstance(e, ControllerValueError):
+            # files whose stored values are outside the known ranges ARE in the quantifier: loading tolerates them;
+            # this error can only be raised in strict mode, so part of the load ran strict
+            return "unloadable", [C.viol("out-of-range-value-not-tolerated-on-load", dict(key), {"error": repr(e)[:200]})], None
         return "unloadable", vs, None
     try:
         s_before = S.snapshot(o)
